@@ -3,7 +3,7 @@
    both weight types, for the TOLERANCE literal of the current source.
 
    Coq's SpecFloat operations (used by the executable model) are linked to
-   Flocq's BinarySingleNaN operations (binary_round_aux_equiv etc. of
+   Flocq's BinarySingleNaN operations (binary_round_aux_equiv etc., as in
    Flocq.IEEE754.PrimFloat), whose correctness theorems give the real-number
    meaning:  lo = round(T/2 * fl(1-TOL)),  hi = round(T/2 * fl(1+TOL)), with
    T/2 exact.  From round's monotonicity and the relative error bound 2^-53:
@@ -12,7 +12,7 @@
    This file (and what depends on it) uses the axioms of Coq's classical real
    numbers through Flocq; nothing else in the C10 development does. *)
 From Coq Require Import ZArith Reals Lia Lra Psatz Floats.SpecFloat.
-From Flocq Require Import Core Relative BinarySingleNaN PrimFloat.
+From Flocq Require Import Core Relative BinarySingleNaN.
 From Coupe Require Import Lib.Prelude Lib.SFloat Model.GridRcb Proofs.GridRcbMedian Gen.GridRcbGen.
 Open Scope R_scope.
 
@@ -22,6 +22,45 @@ Notation emax := 1024%Z.
 #[local] Instance Hmax : Prec_lt_emax prec emax := eq_refl _.
 Notation bf := (binary_float prec emax).
 Notation rnd := (round radix2 (SpecFloat.fexp prec emax) (round_mode mode_NE)).
+
+(* Coq's SpecFloat rounding = Flocq's rounding in mode NE (these four lemmas
+   are those of Flocq.IEEE754.PrimFloat, restated here so that the primitive
+   float library and its axioms are not loaded) *)
+Lemma round_nearest_even_equiv s m l :
+  round_nearest_even m l = choice_mode mode_NE s m l.
+Proof.
+  case l; [reflexivity|intro c].
+  case c; [ | reflexivity..].
+  now simpl; unfold Round.cond_incr; case Z.even.
+Qed.
+
+Lemma binary_round_aux_equiv sx mx ex lx :
+  SpecFloat.binary_round_aux prec emax sx mx ex lx
+  = binary_round_aux prec emax mode_NE sx mx ex lx.
+Proof.
+  unfold SpecFloat.binary_round_aux, binary_round_aux.
+  set (mrse' := shr_fexp _ _ _).
+  case mrse'; intros mrs' e'; simpl.
+  now rewrite (round_nearest_even_equiv sx).
+Qed.
+
+Lemma binary_round_equiv s m e :
+  SpecFloat.binary_round prec emax s m e = binary_round prec emax mode_NE s m e.
+Proof.
+  unfold SpecFloat.binary_round, binary_round, shl_align_fexp.
+  set (mez := shl_align _ _ _); case mez as [mz ez].
+  apply binary_round_aux_equiv.
+Qed.
+
+Lemma binary_normalize_equiv m e szero :
+  SpecFloat.binary_normalize prec emax m e szero
+  = B2SF (binary_normalize prec emax Hprec Hmax mode_NE m e szero).
+Proof.
+  case m as [ | p | p].
+  - now simpl.
+  - simpl; rewrite B2SF_SF2B; apply binary_round_equiv.
+  - simpl; rewrite B2SF_SF2B; apply binary_round_equiv.
+Qed.
 
 (* value of a finite non-negative float and its integer conversions *)
 Lemma pos_div_bounds (m k : Z) : (0 < k)%Z ->
